@@ -74,8 +74,10 @@ func noneOpts() []server.Option {
 }
 
 // connectClient connects a real gopcua client (policy None, anonymous).
-func connectClient(url string) (*opcua.Client, error) {
-	c, err := opcua.NewClient(url, opcua.SecurityMode(ua.MessageSecurityModeNone), opcua.AutoReconnect(false), opcua.RequestTimeout(watchdog))
+func connectClient(url string) (*opcua.Client, error) { return connectClientT(url, watchdog) }
+
+func connectClientT(url string, requestTimeout time.Duration) (*opcua.Client, error) {
+	c, err := opcua.NewClient(url, opcua.SecurityMode(ua.MessageSecurityModeNone), opcua.AutoReconnect(false), opcua.RequestTimeout(requestTimeout))
 	if err != nil {
 		return nil, err
 	}
